@@ -134,7 +134,7 @@ class Ctx:
         if finding is not None:
             ent = self.known.get(finding)
             if ent is not None and ent.get("status") == "known" \
-                    and ent.get("property") == self.prop:
+                    and self.prop in [ent.get("property"), *ent.get("also_properties", [])]:
                 self.known_counts[finding] += 1
                 if finding not in self.known_seen:
                     self.known_seen[finding] = short(detail, 300)
